@@ -61,23 +61,27 @@ def parseEqValue (ok : Cps → Bool) (s : Cps) : Option (Cps × Cps) :=
 def parseAttr (name : Cps) (ok : Cps → Bool) (s : Cps) : Option (Cps × Cps) :=
   if takeS s != [] && name.isPrefixOf (skipS s) then parseEqValue ok ((skipS s).drop name.length) else none
 
+/-- `S? '?>'` at the head of `s`: what follows `?>` -/
+def parseEnd (s : Cps) : Option Cps :=
+  match skipS s with
+  | 63 :: 62 :: rest => some rest
+  | _ => none
+
+/-- `SDDecl? S? '?>'` at the head of `s`: what follows `?>` -/
+def parseDeclTail (s : Cps) : Option Cps :=
+  match parseAttr (cps "standalone") yesNoB s with
+  | some (_, r) => parseEnd r
+  | none => parseEnd s
+
 /-- the declaration at the head of `buf`: its EncName (if it has an EncodingDecl) and what follows `?>` -/
 def parseXmlDecl (buf : Cps) : Option (Option Cps × Cps) :=
   if (cps "<?xml").isPrefixOf buf then
     match parseAttr (cps "version") versionNumB (buf.drop 5) with
     | none => none
     | some (_, s1) =>
-      let es : Option Cps × Cps :=
-        match parseAttr (cps "encoding") encNameB s1 with
-        | some (e, r) => (some e, r)
-        | none => (none, s1)
-      let s3 : Cps :=
-        match parseAttr (cps "standalone") yesNoB es.2 with
-        | some (_, r) => r
-        | none => es.2
-      match skipS s3 with
-      | 63 :: 62 :: rest => some (es.1, rest)
-      | _ => none
+      match parseAttr (cps "encoding") encNameB s1 with
+      | some (e, s2) => (parseDeclTail s2).map fun rest => (some e, rest)
+      | none => (parseDeclTail s1).map fun rest => (none, rest)
   else none
 
 end CssVerif.Encutils
